@@ -17,7 +17,7 @@ PRED_PROP = {
     "C13.ViewReadFails": "C13", "C13.JobReadFails": "C13", "C13.NoUseAfterFree": "C13", "C13.Balanced": "C13",
     "C13.LockCount": "C13", "C13.DirExactWhenQuiet": "C13", "C13.NoLeak": "C13",
     "C11.GraphWellFormed": "C11", "C11.ReferencedMirrors": "C11", "C11.RejectIsNoop": "C11", "C11.Applied": "C11",
-    "C09.FlagsMatchJobs": "C09", "C09.Stuck": "C09",
+    "C09.FlagsMatchJobs": "C09", "C09.Stuck": "C09", "C09.Settles": "C09",
     "C12.TagsKept": "C12", "C12.SettingsKept": "C12", "C12.StreamsKept": "C12", "C12.Converges": "C12", "C12.ConvergesCorrect": "C12",
     "C16.ConvFresh": "C16", "C16.ConvFreshAtRest": "C16", "C16.ConvEventually": "C16", "C16.DetachStops": "C16",
 }
@@ -120,16 +120,44 @@ def to_schedule(sid, hist, convs=(), settle=True):
     return {"id": sid, "steps": steps, "settle": settle, "convs": list(convs)}
 
 
-def load_regress(tags):
+def load_regress(tags, world=""):
     path = os.path.join(HARNESS, "manager", "regress.json")
     res = []
     for s in json.load(open(path)):
+        if s.get("world", "") != world:
+            continue
         if not tags or set(s.get("for", [])) & set(tags):
             res.append({"id": s["id"], "steps": s["steps"], "settle": s.get("settle", True), "convs": s.get("convs", [])})
     return res
 
 
-def run_schedules(ctx, scheds, tag="m", race=False, free=False, timeout=1500):
+def world_files(ctx, world):
+    """a scaled world: JSON for the Go harness, ManagerWorld.tla for the trace validation"""
+    if not world:
+        return None, None
+    path = os.path.join(ctx.scratch, "world_%s.json" % world["name"])
+    with open(path, "w") as fh:
+        json.dump({"caps": world["caps"], "conns": sorted(world["pieces"]), "pieces": {str(c): p for c, p in world["pieces"].items()},
+                   "port": {str(c): p for c, p in world["port"].items()}}, fh)
+    conns = sorted(world["pieces"])
+    tla = ("---- MODULE ManagerWorld ----\nEXTENDS Integers\nWCaps == {%s}\nWConns == {%s}\n" % (
+        ", ".join(map(str, world["caps"])), ", ".join(map(str, conns))))
+    tla += "WPieces == [c \\in WConns |-> CASE " + " [] ".join("c = %d -> {%s}" % (c, ", ".join(map(str, world["pieces"][c]))) for c in conns) + "]\n"
+    tla += "WPort == [c \\in WConns |-> CASE " + " [] ".join("c = %d -> %d" % (c, world["port"][c]) for c in conns) + "]\n====\n"
+    return path, tla
+
+
+def wide_world():
+    """63 streams after capture 1, 64 after capture 2, 65 after capture 3: the stream bitmasks cross a word boundary"""
+    pieces = {1: [1, 2], 2: [2, 3], 3: [1], 65: [3]}
+    port = {1: 80, 2: 81, 3: 80, 65: 80}
+    for c in range(4, 65):
+        pieces[c] = [1]
+        port[c] = 82
+    return {"name": "wide", "caps": [1, 2, 3], "pieces": pieces, "port": port}
+
+
+def run_schedules(ctx, scheds, tag="m", race=False, free=False, timeout=1500, world=None):
     """Run schedules on the real Manager.  A crash of the service goroutine kills the test process:
     the crashed schedule is recorded and the rest is re-run.  Returns (rows, crashes, raw outputs)."""
     ov = harness_overlay(ctx, PKG, "manager")
@@ -143,6 +171,9 @@ def run_schedules(ctx, scheds, tag="m", race=False, free=False, timeout=1500):
         with open(sin, "w") as fh:
             json.dump(pending, fh)
         env = {"VERIF_IN": sin, "VERIF_TRACE": trace}
+        wpath, _ = world_files(ctx, world)
+        if wpath:
+            env["VERIF_WORLD"] = wpath
         if free:
             env["VERIF_FREE"] = "1"
         rc, out = go_test(ctx, PKG, ov, "^TestVerifManager$", env_extra=env, race=race, timeout=timeout)
@@ -178,7 +209,7 @@ def run_schedules(ctx, scheds, tag="m", race=False, free=False, timeout=1500):
     return rows, crashes, outs
 
 
-def validate(ctx, rows, convs=()):
+def validate(ctx, rows, convs=(), world=None):
     """TLC trace validation.  Returns (fails, nonconfs, consumed)."""
     good = [r for r in rows if r.get("st") is not None]
     path = os.path.join(ctx.scratch, "manager_trace.ndjson")
@@ -187,7 +218,9 @@ def validate(ctx, rows, convs=()):
     with open(cfg, "w") as fh:
         fh.write("SPECIFICATION TraceSpec\nCONSTANTS\n  Caps <- TCaps\n  Conns <- TConns\n  Pieces <- TPieces\n  Port <- TPort\n"
                  "  TagNames = {}\n  ConvNames = {%s}\nINVARIANTS Props Done\n" % ", ".join('"%s"' % c for c in convs))
-    res = run_tlc(ctx, "ManagerTrace", "ManagerTrace_run.cfg", files=[path, cfg], workers=1, timeout=1200)
+    _, wtla = world_files(ctx, world)
+    res = run_tlc(ctx, "ManagerTrace", "ManagerTrace_run.cfg", files=[path, cfg], workers=1, timeout=1200,
+                  consts_tla={"ManagerWorld.tla": wtla} if wtla else None)
     if res.error or not res.finished:
         raise Infra("trace validation did not run to completion:\n" + res.out[-4000:])
     done = [p for p in res.prints if "done" in p]
@@ -240,7 +273,9 @@ MC = {
              ["NeverStale", "GraphWellFormed"])],
     "C09": [("tags3", {"TagNames": '{"tag/a", "tag/b"}', "ConvNames": "{}", "MaxCalls": 3, "MaxViews": 0, "Menu": '"tags"', "Invalid": "FALSE"},
              ["NeverStuck", "FlagsMatchJobs"]),
-            ("liveness", {"TagNames": '{"tag/a"}', "ConvNames": "{}", "MaxCalls": 2, "MaxViews": 0, "Menu": '"files"', "Invalid": "FALSE"}, [])],
+            ("liveness", {"TagNames": '{"tag/a"}', "ConvNames": "{}", "MaxCalls": 2, "MaxViews": 0, "Menu": '"files"', "Invalid": "FALSE"}, []),
+            # tags with sub-queries (invalidated as a whole): the as-found model re-invalidated them at every TagDone and never settled
+            ("liveness-subs", {"TagNames": '{"tag/a", "tag/b"}', "ConvNames": "{}", "MaxCalls": 2, "MaxViews": 0, "Menu": '"subs"', "Invalid": "FALSE"}, [])],
     "C10": [("files", {"TagNames": '{"tag/a"}', "ConvNames": "{}", "MaxCalls": 3, "MaxViews": 2, "Menu": '"files"', "Invalid": "FALSE"},
              ["ViewComplete", "OneIdPerConn"])],
     "C11": [("calls", {"TagNames": '{"tag/a", "mark/m"}', "ConvNames": "{}", "MaxCalls": 3, "MaxViews": 0, "Menu": '"tags"', "Invalid": "TRUE"},
@@ -335,7 +370,8 @@ def model_check(ctx, pid):
 GEN2 = {   # additional generator configurations (same MaxLen)
     "C11": [{"TagNames": '{"tag/a", "tag/b", "service/c"}', "ConvNames": "{}", "MaxCalls": 12, "MaxViews": 0, "Menu": '"subs"', "Invalid": "TRUE"}],
     "C06": [{"TagNames": '{"tag/a", "tag/b", "mark/m"}', "ConvNames": "{}", "MaxCalls": 7, "MaxViews": 1, "Menu": '"subs"', "Invalid": "FALSE"}],
-    "C09": [{"TagNames": '{"tag/a", "mark/m"}', "ConvNames": '{"cv"}', "MaxCalls": 8, "MaxViews": 1, "Menu": '"conv"', "Invalid": "FALSE"}],
+    "C09": [{"TagNames": '{"tag/a", "mark/m"}', "ConvNames": '{"cv"}', "MaxCalls": 8, "MaxViews": 1, "Menu": '"conv"', "Invalid": "FALSE"},
+            {"TagNames": '{"tag/a", "tag/b", "mark/m"}', "ConvNames": "{}", "MaxCalls": 7, "MaxViews": 1, "Menu": '"subs"', "Invalid": "FALSE"}],
     "C13": [{"TagNames": '{"tag/a", "mark/m"}', "ConvNames": '{"cv"}', "MaxCalls": 8, "MaxViews": 2, "Menu": '"conv"', "Invalid": "FALSE"}],
 }
 
@@ -360,11 +396,23 @@ def run(ctx):
     convs = sorted(all_convs | set(CONVS.get(pid, [])))
     scheds = load_regress([pid]) + scheds
     rows, crashes, outs = run_schedules(ctx, scheds, tag=pid)
-    return evaluate(ctx, pid, scheds, rows, crashes, states, trans, mc_notes, convs=convs)
+    # the same family in the scaled world (63 / 64 / 65 streams): regression schedules written for it + the first generated ones
+    wide = wide_world()
+    nwide = 4 if ctx.quick() else 24
+    wscheds = load_regress([pid], world="wide") + [dict(s, id="w-" + s["id"]) for s in scheds if s["id"].startswith("g")][:nwide]
+    wrows, wcrashes, _ = run_schedules(ctx, wscheds, tag=pid + "_wide", world=wide)
+    return evaluate(ctx, pid, scheds, rows, crashes, states, trans, mc_notes, convs=convs,
+                    extra=[(wide, wscheds, wrows, wcrashes)])
 
 
-def evaluate(ctx, pid, scheds, rows, crashes, states, trans, mc_notes, convs=()):
+def evaluate(ctx, pid, scheds, rows, crashes, states, trans, mc_notes, convs=(), extra=()):
     by_sid = {s["id"]: s for s in scheds}
+    base_rows = rows
+    for _w, wscheds, wrows, wcrashes in extra:
+        by_sid.update({s["id"]: s for s in wscheds})
+        rows = rows + wrows
+        crashes = crashes + wcrashes
+        scheds = scheds + wscheds
     for c in crashes:
         if pid in ("C11",) and c["panic"]:
             m = re.search(r"panic: (.*)", c["output"])
@@ -390,7 +438,10 @@ def evaluate(ctx, pid, scheds, rows, crashes, states, trans, mc_notes, convs=())
             ctx.violation("C12.Opens:%s:%s" % (r["ev"].get("what", ""), r["res"]),
                           "restart on the directory left by a kill fails (%s): %s" % (r["res"], r.get("msg", "")[:300]),
                           {"schedule": by_sid.get(r["sid"].split("#")[0]), "row": {k: r[k] for k in ("sid", "ev", "res", "msg")}})
-    fails, nonconfs, consumed = validate(ctx, rows, convs)
+    fails, nonconfs, consumed = validate(ctx, base_rows, convs)
+    for w, _ws, wrows, _wc in extra:
+        f2, n2, c2 = validate(ctx, wrows, convs, world=w)
+        fails, nonconfs, consumed = fails + f2, nonconfs + n2, consumed + c2
     # staleness at rest is attributed to the step at which the stale entry first appeared
     first_strict = {}
     for f in fails:
@@ -444,7 +495,8 @@ def evaluate(ctx, pid, scheds, rows, crashes, states, trans, mc_notes, convs=())
         return "fault_enumeration", cov, ["process kill only (the service never syncs; power loss is out of scope)",
                                           "world of 3 captures / 3 UDP connections"]
     return "model_checking", cov, [
-        "world of 3 captures / 3 UDP connections (harness/manager/world_test.go = ManagerMC.tla MCPieces)",
+        "world of 3 captures / 3 UDP connections (harness/manager/world_test.go = ManagerMC.tla MCPieces) and the same world "
+        "padded with single-packet connections to 63 / 64 / 65 streams (trace validation only)",
         "from-scratch truth uses the real query engine on a fresh view (engine correctness is C02-C04)",
         "a model-only counterexample is not a verdict; verdicts come from predicates evaluated on real states"]
 
